@@ -221,7 +221,7 @@ KINDS = ["new_space_badname", "new_cells_badname", "rename_cells_badname", "rena
          "model_ref_clash_space", "rename_cells_clash", "rename_derived_cells", "rename_space_clash",
          "ref_clash_cells", "ref_clash_sub_member", "cells_clash_sub_member", "setattr_nonscalar_cells",
          "add_bases_self", "add_bases_cycle", "add_bases_bad_mro", "new_space_bad_mro", "new_space_cyclic_parent",
-         "add_bases_child", "add_bases_parent", "add_bases_kind_conflict", "new_space_kind_conflict", "remove_bases_not_base",
+         "add_bases_child", "add_bases_parent", "add_bases_kind_conflict", "new_space_kind_conflict", "add_bases_relref_scope", "new_space_relref_scope", "remove_bases_not_base",
          "del_derived_cells", "del_derived_ref", "del_missing", "del_special", "del_model_ref_via_space",
          "formula_syntax", "formula_not_function", "formula_two_statements", "formula_async", "formula_int",
          "formula_two_lambdas", "formula_funcobj_global_default", "formula_funcobj_two_lambdas", "new_cells_syntax", "new_cells_not_function", "space_formula_syntax",
@@ -278,11 +278,11 @@ def apply_invalid(w, o):
         elif k in ("ref_clash_cells", "ref_clash_sub_member", "setattr_nonscalar_cells"):
             setattr(g(o["space"]), o["name"], 3)
         elif k in ("add_bases_self", "add_bases_cycle", "add_bases_child", "add_bases_parent",
-                   "add_bases_kind_conflict"):
+                   "add_bases_kind_conflict", "add_bases_relref_scope"):
             g(o["space"]).add_bases(g(o["base"]))
         elif k == "add_bases_bad_mro":
             g(o["space"]).add_bases(*[g(b) for b in o["bases"]])
-        elif k in ("new_space_bad_mro", "new_space_kind_conflict"):
+        elif k in ("new_space_bad_mro", "new_space_kind_conflict", "new_space_relref_scope"):
             m.new_space(o["name"], bases=[g(b) for b in o["bases"]])
         elif k == "new_space_cyclic_parent":
             g(o["parent"]).new_space(o["name"], bases=[g(b) for b in o["bases"]])
@@ -417,6 +417,28 @@ def expand(case):
                     ops.append({"op": "evalsome", "seed": rnd.randrange(1 << 30)})
                     ops.append({"op": "invalid", "what": {"bad": "new_space_kind_conflict", "name": "KN%d" % len(ops),
                                                           "bases": [d.path(), xn]}})
+        elif r < 0.2:
+            # a relative reference whose target lies outside its space is fine while nothing derives it;
+            # deriving it must be refused - without leaving anything behind
+            st = [s for s in g.rm.children.values() if s.formula is None and not s.children]
+            free = [s for s in st if not g.rm.subs_of(s) and "rrl" not in s.refs]
+            if len(st) >= 3 and free:
+                a = rnd.choice(free)
+                others = [s for s in st if s is not a and a not in R.mro(s) and s not in R.mro(a)]
+                if len(others) >= 2:
+                    z, x = rnd.sample(others, 2)
+                    e = {"op": "set_ref", "space": a.path(), "name": "rrl", "value": {"space": z.path()},
+                         "mode": "relative"}
+                    g.emit(e)
+                    ops.append(dict(e, tag="set_ref"))
+                    ops.append({"op": "invalid", "what": {"bad": "add_bases_relref_scope", "space": x.path(),
+                                                          "base": a.path()}})
+                    ops.append({"op": "invalid", "what": {"bad": "new_space_relref_scope", "name": "RS%d" % len(ops),
+                                                          "bases": [a.path()]}})
+                    # withdraw it again so that later edits are not all refused
+                    e2 = {"op": "del_ref", "space": a.path(), "name": "rrl"}
+                    g.emit(e2)
+                    ops.append(dict(e2, tag="del_ref"))
         elif r < 0.6:
             o = None
             for _t in range(6):
@@ -557,7 +579,7 @@ def run_directed(case):
             "case": case}
 
 
-DIRECTED = ["A", "F", "G", "U", "I", "J", "K", "L", "R", "EE"]
+DIRECTED = ["A", "F", "G", "U", "I", "J", "K", "L", "R", "EE", "FF"]
 
 
 def _n(v):
